@@ -46,7 +46,7 @@ def node_obligations(func: str, scen: str, props: Sequence[str], level: str,
                      spec_body: Callable[[], str], levels: Dict[str, str],
                      want_start: bool = True, replay: Optional[Dict[str, Any]] = None,
                      shapes: Sequence[Any] = TIMES_SHAPES, body_nullable: bool = False,
-                     pinned: Optional[Callable[[], str]] = None, unit: bool = False) -> List[Ob]:
+                     pinned: Optional[Callable[[], str]] = None, unit: bool = False, ncaps: int = 0) -> List[Ob]:
     """run the real builder for every `times` shape and discharge the node contract"""
     obs: List[Ob] = []
     for shape in shapes:
@@ -99,6 +99,10 @@ def node_obligations(func: str, scen: str, props: Sequence[str], level: str,
             obs.append(simple_ob(base + ":CLOSED", func, "CLOSED",
                                  f"{shown} : children intact, alternations enclosed, sequence-safe", not issues, props,
                                  detail="; ".join(issues), witness="; ".join(issues), replay=rp))
+            obs.append(simple_ob(base + ":CAPS", func, "CAPS",
+                                 f"{shown} contains exactly {ncaps} capturing group(s): group numbers stay equal to the capture "
+                                 f"registration order", pr.ncaps == ncaps, list(props) + ["C05"],
+                                 detail=f"{pr.ncaps} capturing groups", witness=f"{pr.ncaps} capturing groups", replay=rp))
             top = pr.ast
             body = top
             # ---- repetition shape
@@ -175,6 +179,8 @@ def _serves(prop: str, o: Ob) -> bool:
         return o.family in ALIGNMENT_FAMILIES
     if prop == "C02":
         return ":one:" not in o.name
+    if prop == "C05":
+        return o.family == "CAPS" or ":cap:" in o.name
     return True
 
 
@@ -235,9 +241,9 @@ def _operator(cls_name: str, op: str, props: Sequence[str]):
                      doc=f"{op} over {cshape} children at {level} level")(run)
 
 
-_operator("NodeOr", "$or", ["C03", "C02", "C07"])
-_operator("NodeAnd", "$and", ["C03", "C02", "C07", "C01"])
-_operator("NodeAndAnyOrder", "$and_any_order", ["C03", "C02", "C07"])
+_operator("NodeOr", "$or", ["C03", "C02", "C07", "C05"])
+_operator("NodeAnd", "$and", ["C03", "C02", "C07", "C01", "C05"])
+_operator("NodeAndAnyOrder", "$and_any_order", ["C03", "C02", "C07", "C05"])
 
 
 def _not():
@@ -262,8 +268,8 @@ def _not():
                 # exactly one whole operand field at which x fails
                 return f"(?!{c})[^,|]*,"
             rp = {"kind": "operator", "op": "$not", "level": level, "children": "k1"}
-            return node_obligations(func, sid, ["C04", "C02", "C07"], level, build, spec, levels, replay=rp, unit=True)
-        scenario(sid, func, ["C04", "C02", "C07"],
+            return node_obligations(func, sid, ["C04", "C02", "C07", "C05"], level, build, spec, levels, replay=rp, unit=True)
+        scenario(sid, func, ["C04", "C02", "C07", "C05"],
                  inlined=["LogicalOperationBaseNode.get_regex", "process_children", "NodeNot._make_main_regex",
                           "TimesTypeBuilder.get_min_max_regex"], doc=f"$not at {level} level")(run)
 
@@ -320,9 +326,9 @@ def _mnemonic():
                     # operand fields in order, any further fields of the same record, "|"
                     return f"{HEXADDR}{_window(str.__str__(w), fm)},{ops}{REST_OF_RECORD}"
                 rp = {"kind": "mnemonic", "fm": fm, "children": cshape, "level": G.INST}
-                return node_obligations(MN_FUNC, sid, ["C01", "C02", "C07"], G.INST, build, spec, levels, replay=rp,
+                return node_obligations(MN_FUNC, sid, ["C01", "C02", "C07", "C05"], G.INST, build, spec, levels, replay=rp,
                                         unit=True)
-            scenario(sid, MN_FUNC, ["C01", "C02", "C07"],
+            scenario(sid, MN_FUNC, ["C01", "C02", "C07", "C05"],
                      inlined=["PatternNodeMnemonic.get_operand_regex", "get_min_max_regex", "_form_regex_with_time",
                               "_form_regex_without_time", "InstructionNodeHelper.get_pattern_node_name",
                               "InstructionNodeHelper.allow_matching_substring", "JASMConfig.get_instance/get_info/load_config"],
@@ -366,9 +372,9 @@ def _operand():
                     n = mkname()
                     return f"{_window('0x' + str.__str__(n.stem), fo)},"
                 rp = {"kind": "operand", "fo": fo, "cat": cat, "level": G.OPER}
-                return node_obligations(OP_FUNC, sid, ["C01", "C07"], G.OPER, build, spec, levels, replay=rp,
+                return node_obligations(OP_FUNC, sid, ["C01", "C07", "C05"], G.OPER, build, spec, levels, replay=rp,
                                         shapes=["one"], pinned=pinned if cat == "hexh" else None, unit=True)
-            scenario(sid, OP_FUNC, ["C01", "C07"],
+            scenario(sid, OP_FUNC, ["C01", "C07", "C05"],
                      inlined=["PatternNodeOperand._is_hex_operand", "_process_hex_operand",
                               "InstructionNodeHelper.get_pattern_node_name", "allow_matching_substring"],
                      doc="operand item with an opaque literal name of each category")(run)
